@@ -72,9 +72,11 @@ SOLVER = "sedov.sedov.Sedov"
 # Measured on the thorough lattice of the unchanged tree (see the calibration note at the end of this file).
 TOL_E = 1.0e-3
 TOL_M = 2.0e-3
-TOL_AHEAD_NODE = 1.0e-11       # rho0 r^-omega at grid nodes / two-point calls: pure formula, rounding only
+TOL_AHEAD_NODE = 1.0e-10       # rho0 r^-omega at grid nodes / two-point calls (node value to 1e-12): pure formula
+TOL_AHEAD_ZERO = 1.0e-12       # |u|, |p| ahead relative to the post-shock values (exact zeros expected)
 TOL_AHEAD_INTERP = 1.0e-4      # between nodes: linear interpolation of r^-omega, <= w(w+1)/8 (h/r)^2 = 1.5e-6 at rmax = 3 r_s
 NGRID = 3000                   # documented internal resolution (3001 nodes)
+EPS = 1.0e-12                  # offset of the two-point sentinel (see Probe.point2)
 LAYER = 1.0e-2                 # inner layer thickness / shell thickness
 S0 = 1.0e-6                    # analytic tail below S0 * shell thickness
 GL_N = 12
@@ -112,6 +114,10 @@ def tasks(tier, seed):
 
 # ----------------------------------------------------------------------------------------------- observation
 
+class SolverCallError(Exception):
+    """A public solver call raised (C20's business: counted here, not judged)."""
+
+
 class Probe:
     """Public calls on one solver at one time, counted and digested."""
 
@@ -119,18 +125,34 @@ class Probe:
         self.s, self.t, self.dg, self.n = s, t, dg, 0
 
     def fields(self, r):
-        sol = call(self.s, np.asarray(r, float), self.t)
+        try:
+            sol = call(self.s, np.asarray(r, float), self.t)
+        except Exception as ex:
+            raise SolverCallError(type(ex).__name__)
         self.n += 1
         out = tuple(np.asarray(sol[k], float) for k in ("density", "velocity", "pressure"))
         self.dg.add(*out)
         return out
 
+    def point2(self, x):
+        """Values at x and at the next internal node above it, from the batch [x, 2x(1-e), 3000x(1-e)], e = 1e-12.
+        The internal grid linspace(0, 3000x(1-e), 3001) has the node x(1-e) immediately below x, so the value returned
+        at x is that node's value plus e times the difference to the next node (the sentinel is kept a hair below 3000x
+        so that x never falls into the cell [0, x], whose other end is the -- possibly infinite -- origin value)."""
+        d, u, p = self.fields(np.array([x, 2.0 * x * (1.0 - EPS), float(NGRID) * x * (1.0 - EPS)]))
+        return (float(d[0]), float(u[0]), float(p[0])), (float(d[1]), float(u[1]), float(p[1]))
+
     def point(self, x):
-        d, u, p = self.fields(np.array([x, float(NGRID) * x]))
-        return float(d[0]), float(u[0]), float(p[0])
+        return self.point2(x)[0]
+
+    def cleaned(self, x):
+        """Values at x with the interpolation admixture of the next node removed: a field smaller than 100 e times its
+        value at the next node is an exact zero of the node below x (vacuum hole, or u = p = 0 ahead of the shock)."""
+        v, w = self.point2(x)
+        return tuple(0.0 if abs(a) <= 100.0 * EPS * abs(b) else a for a, b in zip(v, w))
 
     def state(self, x):
-        d, u, p = self.point(x)
+        d, u, p = self.cleaned(x)
         if u != 0.0 or p != 0.0:
             return "shell"
         return "hole" if d == 0.0 else "ahead"
@@ -185,7 +207,9 @@ def locate_shock(P):
         if not found:
             return None
         inner = found
-    return bisect(lambda q: P.state(q) != "ahead", inner, outer)
+    lo, hi = bisect(lambda q: P.state(q) != "ahead", inner, outer)
+    # point(q) reads the node q (1 - 1e-12): step back so that lo itself is certainly behind the shock
+    return lo * (1.0 - 4.0e-12), hi
 
 
 def vol(j, r):
@@ -203,53 +227,76 @@ def powerlaw_cells(s, f):
     return float(np.where(ok & np.isfinite(pl), pl, trap).sum())
 
 
-def integrals(P, j, g, lo, r_in):
+def integrands(j, g, r, d_, u_, p_):
+    v = vol(j, r)
+    return (0.5 * d_ * u_ * u_ + p_ / (g - 1.0)) * v, d_ * v
+
+
+def first_cell(r1, r2, f1, f2):
+    """Integral over [0, r1] of the power law through (r1, f1), (r2, f2); (value, exponent)."""
+    if not (f1 > 0 and f2 > 0):
+        return 0.5 * max(f1, 0.0) * r1, 0.0
+    b = math.log(f2 / f1) / math.log(r2 / r1)
+    if b <= -0.98:
+        return float("inf"), b           # not integrable: the integral of the returned profile does not exist
+    return f1 * r1 / (b + 1.0), b
+
+
+def dense_nodes(P, lo):
+    nodes = np.linspace(0.0, lo, NGRID + 1)
+    return (nodes,) + P.fields(nodes)
+
+
+def locate_hole(P, nodes, d, u, p):
+    """Vacuum hole of the returned fields: a run of >= 3 nodes above the origin with rho = u = p = 0 exactly.
+    Returns 0.0 (no hole) or the smallest located radius with p > 0."""
+    empty = (d == 0.0) & (u == 0.0) & (p == 0.0)
+    k = 1
+    while k < len(nodes) - 1 and empty[k]:
+        k += 1
+    if k < 4:
+        return 0.0
+    _, r_in = bisect(lambda q: P.cleaned(q)[2] <= 0.0, float(nodes[k - 1]), float(nodes[k]))
+    return r_in
+
+
+def integrals(P, j, g, lo, r_in, nodes, d, u, p):
     """Energy and mass of the returned fields over [r_in, lo]; returns dict with the pieces."""
     L = lo - r_in
-    nodes = np.linspace(0.0, lo, NGRID + 1)
-    d, u, p = P.fields(nodes)
-    k1 = int(np.searchsorted(nodes, r_in + LAYER * L, side="left"))
-    k1 = min(max(k1, 1), NGRID - 2)
-    s1 = nodes[k1] - r_in
-
-    def integrands(r, d_, u_, p_):
-        v = vol(j, r)
-        return (0.5 * d_ * u_ * u_ + p_ / (g - 1.0)) * v, d_ * v
-
-    fe, fm = integrands(nodes[k1:], d[k1:], u[k1:], p[k1:])
-    sb = nodes[k1:] - r_in
-    bulkE, bulkM = powerlaw_cells(sb, fe), powerlaw_cells(sb, fm)
-    # inner layer: Gauss-Legendre in y = ln s on [ln(S0 L), ln s1], values from two-point calls (node values)
-    xg, wg = np.polynomial.legendre.leggauss(GL_N)
-    ya, yb = math.log(S0 * L), math.log(s1)
-    edges = np.linspace(ya, yb, GL_PANELS + 1)
-    layE = layM = 0.0
-    for a, b in zip(edges[:-1], edges[1:]):
-        ym, yr = 0.5 * (a + b), 0.5 * (b - a)
-        for xi, wi in zip(xg, wg):
-            sv = math.exp(ym + yr * xi)
-            dd, uu, pp = P.point(r_in + sv)
-            e_, m_ = integrands(r_in + sv, dd, uu, pp)
-            layE += wi * yr * e_ * sv
-            layM += wi * yr * m_ * sv
-    # analytic tail below S0 L from the local power law through s0 and 2 s0
-    s0 = S0 * L
-    va, vb = P.point(r_in + s0), P.point(r_in + 2.0 * s0)
-    ea, ma = integrands(r_in + s0, *va)
-    eb, mb = integrands(r_in + 2.0 * s0, *vb)
-
-    def tail(fa, fb):
-        if not (fa > 0 and fb > 0):
-            return 0.5 * max(fa, 0.0) * s0, 0.0
-        b = math.log(fb / fa) / math.log(2.0)
-        if b <= -0.98:
-            return float("inf"), b       # not integrable: the integral of the returned profile does not exist
-        return fa * s0 / (b + 1.0), b
-    tE, bE = tail(ea, eb)
-    tM, bM = tail(ma, mb)
+    fe, fm = integrands(j, g, nodes, d, u, p)
+    if r_in == 0.0:
+        # standard / singular type: the 3001 nodes down to the first, the cell [0, h] from the local power law
+        bulkE, bulkM = powerlaw_cells(nodes[1:], fe[1:]), powerlaw_cells(nodes[1:], fm[1:])
+        tE, bE = first_cell(nodes[1], nodes[2], fe[1], fe[2])
+        tM, bM = first_cell(nodes[1], nodes[2], fm[1], fm[2])
+        layE = layM = 0.0
+        k1 = 1
+    else:
+        k1 = int(np.searchsorted(nodes, r_in + LAYER * L, side="left"))
+        k1 = min(max(k1, 1), NGRID - 2)
+        s1 = nodes[k1] - r_in
+        sb = nodes[k1:] - r_in
+        bulkE, bulkM = powerlaw_cells(sb, fe[k1:]), powerlaw_cells(sb, fm[k1:])
+        # inner layer: Gauss-Legendre in y = ln s on [ln(S0 L), ln s1], values from two-point calls (node values)
+        xg, wg = np.polynomial.legendre.leggauss(GL_N)
+        edges = np.linspace(math.log(S0 * L), math.log(s1), GL_PANELS + 1)
+        layE = layM = 0.0
+        for a, b in zip(edges[:-1], edges[1:]):
+            ym, yr = 0.5 * (a + b), 0.5 * (b - a)
+            for xi, wi in zip(xg, wg):
+                sv = math.exp(ym + yr * xi)
+                e_, m_ = integrands(j, g, r_in + sv, *P.point(r_in + sv))
+                layE += wi * yr * e_ * sv
+                layM += wi * yr * m_ * sv
+        # analytic tail below S0 L from the local power law through s0 and 2 s0
+        s0 = S0 * L
+        ea, ma = integrands(j, g, r_in + s0, *P.point(r_in + s0))
+        eb, mb = integrands(j, g, r_in + 2.0 * s0, *P.point(r_in + 2.0 * s0))
+        tE, bE = first_cell(s0, 2.0 * s0, ea, eb)
+        tM, bM = first_cell(s0, 2.0 * s0, ma, mb)
     # the dense call and the two-point calls must see the same similarity solution (grid assumption of this module)
     chk = 0.0
-    for frac in (0.5, 0.8, 0.95):
+    for frac in (0.6, 0.8, 0.95):
         k = int(round((r_in + frac * L) / lo * NGRID))
         k = min(max(k, k1), NGRID - 1)
         dd, uu, pp = P.point(float(nodes[k]))
@@ -292,7 +339,7 @@ def ahead_checks(P, cfg, om, lo, hi, post):
             out[0] = ("sedov:ahead-density", m, TOL_AHEAD_NODE,
                       {"r": x, "returned": dd, "expected": rho0 * x ** (-om), "kind": "two-point call"})
         worst_up = max(worst_up, abs(uu) / us if us > 0 else abs(uu), abs(pp) / ps if ps > 0 else abs(pp))
-    out.append(("sedov:ahead-velocity-pressure-zero", worst_up, 0.0, {"scale_u": us, "scale_p": ps}))
+    out.append(("sedov:ahead-velocity-pressure-zero", worst_up, TOL_AHEAD_ZERO, {"scale_u": us, "scale_p": ps}))
     return out
 
 
@@ -327,20 +374,18 @@ def run_task(task):
             if br is None:
                 raise RuntimeError("no shock found in the returned fields")
             lo, hi = br
-            r_in = 0.0
-            if P.state(1e-3 * lo) == "hole":
+            nodes, dA, uA, pA = dense_nodes(P, lo)
+            r_in = locate_hole(P, nodes, dA, uA, pA)
+            if r_in > 0.0:
                 C["vacuum_holes_located"] = C.get("vacuum_holes_located", 0) + 1
-                _, r_in = bisect(lambda q: P.point(q)[2] <= 0.0, 1e-3 * lo, lo)
-            I = integrals(P, j, g, lo, r_in)
+            I = integrals(P, j, g, lo, r_in, nodes, dA, uA, pA)
             ah = ahead_checks(P, cfg, om, lo, hi, I["post"])
-        except RuntimeError:
-            raise
-        except Exception as ex:      # a raising public call is C20's business; counted, not judged
+        except SolverCallError as ex:      # a raising public call is C20's business; counted, not judged
             res["evals"] += P.n
             C["call_exceptions"] = C.get("call_exceptions", 0) + 1
-            key = "exc:%s:%s" % (cfg["omega"], type(ex).__name__)
+            key = "exc:%s:%s" % (cfg["omega"], ex.args[0])
             C[key] = C.get(key, 0) + 1
-            dg.add("exc", type(ex).__name__)
+            dg.add("exc", ex.args[0])
             continue
         res["evals"] += P.n
         if I["grid_check"] > 1e-3:
